@@ -32,6 +32,7 @@ type pop3Model struct {
 	undec                              []string
 	ok                                 bool
 	visitsDone                         bool
+	delHelpers                         []*ssa.Function // per-message helpers of the delete processor
 	visitList                          []pop3Visit
 }
 
@@ -140,6 +141,20 @@ func (c *Ctx) pop3() *pop3Model {
 	m.loader = one("mailbox loader (stores Session.messages)", loaders)
 	m.retainReset = one("retain reset (stores Session.retain)", resets)
 	m.deleteProc = one("delete processor (calls Store.RemoveMessage)", delprocs)
+	// a per-message helper (removeMessage(msg)) called from inside a loop: the processor is
+	// the function that holds the loop
+	for depth := 0; m.deleteProc != nil && depth < 3; depth++ {
+		sites := p.StaticCallSites(m.deleteProc)
+		if len(sites) != 1 {
+			break
+		}
+		site, ok := sites[0].Instr.(*ssa.Call)
+		if !ok || eng.FuncPkgPath(site.Parent()) != eng.FuncPkgPath(m.deleteProc) || len(loopHeaders(site.Block())) == 0 {
+			break
+		}
+		m.delHelpers = append(m.delHelpers, m.deleteProc)
+		m.deleteProc = eng.Outer(site.Parent())
+	}
 	m.send = one("reply writer (fmt.Fprint to the connection)", senders)
 	m.readLine = one("line read (bufio ReadString)", readers)
 	for _, e := range p.CallersOf(newSession) {
@@ -447,7 +462,11 @@ func (c *Ctx) c13Commit(m *pop3Model) {
 			}
 			nRm++
 			cons := "RemoveMessage@" + shortFn(fn)
-			if eng.Outer(fn) != m.deleteProc {
+			inHelper := false
+			for _, h := range m.delHelpers {
+				inHelper = inHelper || h == eng.Outer(fn)
+			}
+			if eng.Outer(fn) != m.deleteProc && !inHelper {
 				r.Bad("C13/COMMIT", cons, p.InstrPos(in), "Store.RemoveMessage is called outside the delete processor")
 				return
 			}
@@ -457,8 +476,19 @@ func (c *Ctx) c13Commit(m *pop3Model) {
 			ic, ok := idv.(*ssa.Call)
 			okID := false
 			var idx ssa.Value
+			guardAt := call.Block()
 			if ok && ic.Call.IsInvoke() && ic.Call.Method.Name() == "ID" {
-				if u, ok := ic.Call.Value.(*ssa.UnOp); ok {
+				recv := ic.Call.Value
+				// the message handed to a per-message helper: judged at the helper's call
+				if prm, isP := recv.(*ssa.Parameter); isP && inHelper {
+					if sites := p.StaticCallSites(prm.Parent()); len(sites) == 1 {
+						if pi := eng.ParamIndex(prm); pi >= 0 && pi < len(sites[0].Args) {
+							recv = sites[0].Args[pi]
+							guardAt = sites[0].Instr.Block()
+						}
+					}
+				}
+				if u, ok := recv.(*ssa.UnOp); ok {
 					if ia, ok := u.X.(*ssa.IndexAddr); ok && eng.SameField(eng.LoadedField(ia.X), m.fMessages) {
 						okID = true
 						idx = ia.Index
@@ -506,7 +536,7 @@ func (c *Ctx) c13Commit(m *pop3Model) {
 				r.Bad("C13/COMMIT", cons, p.InstrPos(in), "the id removed is not ID() of an element of the session snapshot")
 				return
 			}
-			if !m.retainGuard(call.Block(), idx, false) {
+			if !m.retainGuard(guardAt, idx, false) {
 				r.Bad("C13/COMMIT", cons, p.InstrPos(in), "RemoveMessage is not guarded by !retain[i] for the same i: unmarked messages are deleted on QUIT")
 				return
 			}
@@ -814,7 +844,9 @@ func (m *pop3Model) snapshotLoops() []snapLoop {
 			if call, ok := rel.Y.(*ssa.Call); ok && eng.CalleeName(call.Common()) == "builtin.len" {
 				sl = call.Call.Args[0]
 			}
-			if sl == nil || !eng.SameField(eng.LoadedField(sl), m.fMessages) {
+			// a loop over retain is a loop over the snapshot: retain is only ever
+			// make([]bool, len(messages)) (C13/SNAPSHOT/retain-length)
+			if sl == nil || !eng.SameField(eng.LoadedField(sl), m.fMessages) && !eng.SameField(eng.LoadedField(sl), m.fRetain) {
 				continue
 			}
 			if !b.Dominates(b.Succs[0]) {
